@@ -101,3 +101,222 @@ pub mod prepared {
             })
     }
 }
+
+/// C15: tablets bookkeeping driven with plain data.
+pub mod tablets {
+    pub use crate::routing::locator::tablets::verif::{
+        TabletView, VerifTablets, raw_tablet_from_payload,
+    };
+}
+
+/// C18: a scripted clock for `MonotonicTimestampGenerator::compute_next`.
+///
+/// While a script is installed on the current thread, each clock reading pops its next entry
+/// (`Some(us)` = microseconds since the epoch, `None` = a reading before the epoch); when the
+/// script runs out, its last entry keeps being returned. Without a script the real reading is
+/// returned unchanged.
+pub mod clock {
+    use std::cell::RefCell;
+    use std::collections::VecDeque;
+    use std::time::{Duration, SystemTimeError, UNIX_EPOCH};
+
+    thread_local! {
+        static SCRIPT: RefCell<Option<(VecDeque<Option<u64>>, Option<u64>)>> = const { RefCell::new(None) };
+    }
+
+    pub fn install(script: Vec<Option<u64>>) {
+        SCRIPT.with(|s| *s.borrow_mut() = Some((script.into(), None)));
+    }
+
+    pub fn uninstall() {
+        SCRIPT.with(|s| *s.borrow_mut() = None);
+    }
+
+    fn before_epoch() -> SystemTimeError {
+        UNIX_EPOCH
+            .duration_since(UNIX_EPOCH + Duration::from_secs(1))
+            .unwrap_err()
+    }
+
+    pub(crate) fn override_or(
+        real: Result<Duration, SystemTimeError>,
+    ) -> Result<Duration, SystemTimeError> {
+        SCRIPT.with(|s| {
+            let mut guard = s.borrow_mut();
+            match guard.as_mut() {
+                None => real,
+                Some((queue, last)) => {
+                    if let Some(next) = queue.pop_front() {
+                        *last = next;
+                    }
+                    match *last {
+                        Some(us) => Ok(Duration::from_micros(us)),
+                        None => Err(before_epoch()),
+                    }
+                }
+            }
+        })
+    }
+}
+
+/// C19: the merge channel with `T = Vec<u64>` (merge = push), and `MetadataUpdate::merge_*`.
+pub mod merge_channel {
+    use crate::cluster::metadata::merge_channel as mc;
+
+    pub use crate::cluster::metadata::update::verif::{SlotView, UpdateSlot};
+
+    pub struct MergeSender(mc::Sender<Vec<u64>>);
+    pub struct MergeReceiver(mc::Receiver<Vec<u64>>);
+
+    pub fn channel() -> (MergeSender, MergeReceiver) {
+        let (tx, rx) = mc::merge_channel();
+        (MergeSender(tx), MergeReceiver(rx))
+    }
+
+    impl MergeSender {
+        /// `Sender::modify(|slot| slot.get_or_insert_default().push(x))`; `Err(())` = `SendError`.
+        /// Returns whether the closure was run.
+        pub fn merge(&mut self, x: u64) -> Result<(), ()> {
+            self.0
+                .modify(|slot| slot.get_or_insert_with(Vec::new).push(x))
+                .map_err(|_| ())
+        }
+    }
+
+    impl MergeReceiver {
+        pub async fn recv(&mut self) -> Option<Vec<u64>> {
+            self.0.recv().await
+        }
+    }
+}
+
+/// C13: the speculative execution driver loop with synthetic executions.
+pub mod speculative {
+    use crate::errors::RequestError;
+    use crate::policies::speculative_execution::{self as se, SpeculativeExecutionPolicy};
+    use std::future::Future;
+
+    #[cfg(not(feature = "metrics"))]
+    pub async fn execute<QueryFut, T>(
+        policy: &dyn SpeculativeExecutionPolicy,
+        query_runner_generator: impl FnMut(bool) -> QueryFut,
+    ) -> Result<T, RequestError>
+    where
+        QueryFut: Future<Output = Option<Result<T, RequestError>>>,
+    {
+        let context = se::Context {};
+        se::execute(policy, &context, query_runner_generator).await
+    }
+
+    pub fn can_be_ignored<T>(result: &Result<T, RequestError>) -> bool {
+        se::verif_can_be_ignored(result)
+    }
+}
+
+/// C06/C13: the request execution core (`run_request_no_side_effects`: fibers, retry policy
+/// consultation, speculative gate) over a plan of synthetic targets and a scripted
+/// `run_request_once`.
+pub mod exec {
+    pub use crate::client::execution_verif::*;
+}
+
+/// C04/C05/C12: a `ClusterState` built from an in-memory topology. All nodes are created
+/// pool-less (as if rejected by a host filter, so no background connection attempts are made);
+/// `enabled` / `connected` are then imposed through `Node::verif_override_state`.
+pub mod cluster {
+    use crate::cluster::metadata::{Keyspace, Metadata, Peer, Strategy};
+    use crate::cluster::node::NodeAddr;
+    use crate::cluster::{ClusterState, NodeConfig};
+    use crate::network::PoolConfig;
+    use crate::policies::host_filter::HostFilter;
+    use crate::routing::Token;
+    use std::collections::HashMap;
+    use std::net::SocketAddr;
+    use std::sync::Arc;
+    use uuid::Uuid;
+
+    pub struct NodeSpec {
+        pub host_id: Uuid,
+        pub datacenter: Option<String>,
+        pub rack: Option<String>,
+        pub tokens: Vec<i64>,
+        pub enabled: bool,
+        pub connected: bool,
+    }
+
+    pub struct KeyspaceSpec {
+        pub name: String,
+        pub strategy: Strategy,
+    }
+
+    struct RejectAll;
+    impl HostFilter for RejectAll {
+        fn accept(&self, _peer: &Peer) -> bool {
+            false
+        }
+    }
+
+    /// `ClusterState::new(metadata, ..)`; must run inside a tokio runtime.
+    pub async fn cluster_from_topology(
+        nodes: &[NodeSpec],
+        keyspaces: &[KeyspaceSpec],
+    ) -> ClusterState {
+        let peers = nodes
+            .iter()
+            .enumerate()
+            .map(|(i, n)| Peer {
+                host_id: n.host_id,
+                address: NodeAddr::Translatable(SocketAddr::from((
+                    [127, 0, (i / 250) as u8, (i % 250) as u8 + 1],
+                    9042,
+                ))),
+                tokens: n.tokens.iter().map(|t| Token::new(*t)).collect(),
+                datacenter: n.datacenter.clone(),
+                rack: n.rack.clone(),
+            })
+            .collect();
+        let keyspaces = keyspaces
+            .iter()
+            .map(|k| {
+                (
+                    k.name.clone(),
+                    Ok(Keyspace {
+                        strategy: k.strategy.clone(),
+                        durable_writes: true,
+                        tablet_based: false,
+                        tables: HashMap::new(),
+                        views: HashMap::new(),
+                        user_defined_types: HashMap::new(),
+                    }),
+                )
+            })
+            .collect();
+        let metadata = Metadata {
+            peers,
+            keyspaces,
+            cluster_name: None,
+            client_routes: None,
+        };
+        let (connectivity_events_sender, _) = tokio::sync::mpsc::unbounded_channel();
+        let node_config = NodeConfig {
+            pool_config: PoolConfig {
+                connection_config: crate::network::connection_verif::connection_config(),
+                pool_size: Default::default(),
+                can_use_shard_aware_port: true,
+                reconnect_policy: Arc::new(
+                    crate::policies::reconnect::ExponentialReconnectPolicy::new(),
+                ),
+            },
+            used_keyspace: None,
+            connectivity_events_sender,
+            metrics: crate::observability::metrics::Metrics::new(),
+        };
+        let state = ClusterState::new(metadata, &node_config, Some(&RejectAll)).await;
+        for spec in nodes {
+            if let Some(node) = state.known_nodes.get(&spec.host_id) {
+                node.verif_override_state(spec.enabled, spec.connected);
+            }
+        }
+        state
+    }
+}
